@@ -17,7 +17,6 @@ from torcheval.metrics.functional.ranking.retrieval_recall import (
     _retrieval_recall_param_check,
     _retrieval_recall_update_input_check,
     get_topk,
-    retrieval_recall,
 )
 from torcheval.metrics.metric import Metric
 
@@ -103,6 +102,10 @@ class RetrievalRecall(Metric[torch.Tensor]):
         self.avg = avg
         self._add_state("topk", [torch.empty(0) for _ in range(num_queries)])
         self._add_state("target", [torch.empty(0) for _ in range(num_queries)])
+        # number of relevant items seen per query (the retained top-k forgets the pruned ones)
+        self._add_state(
+            "num_relevant", torch.zeros(num_queries, dtype=torch.float64)
+        )
 
     @torch.inference_mode()
     # pyre-ignore[14]: `update` overrides method defined in `Metric` inconsistently.
@@ -138,8 +141,11 @@ class RetrievalRecall(Metric[torch.Tensor]):
         batch_preds = torch.cat([self.topk[i], input])
         batch_targets = torch.cat([self.target[i], target])
         preds_topk = get_topk(batch_preds, self.k)
+        retained = batch_targets.gather(dim=-1, index=preds_topk[1])
+        num_relevant = self.num_relevant[i] + target.sum()
         self.topk[i] = preds_topk[0]
-        self.target[i] = batch_targets.gather(dim=-1, index=preds_topk[1])
+        self.target[i] = retained
+        self.num_relevant[i] = num_relevant
 
     @torch.inference_mode()
     def compute(self: TRetrievalRecall) -> torch.Tensor:
@@ -147,7 +153,7 @@ class RetrievalRecall(Metric[torch.Tensor]):
         for i in range(self.num_queries):
             if not len(self.target[i]):
                 rp.append(torch.tensor([torch.nan]))
-            elif 1 not in self.target[i]:
+            elif self.num_relevant[i] == 0:
                 if self.empty_target_action == "pos":
                     rp.append(torch.tensor([1.0]))
                 elif self.empty_target_action == "neg":
@@ -159,11 +165,11 @@ class RetrievalRecall(Metric[torch.Tensor]):
                         f"no positive value found in target={self.target[i]}."
                     )
             else:
-                rp.append(
-                    retrieval_recall(
-                        self.topk[i], self.target[i], self.k, self.limit_k_to_size
-                    ).reshape(-1)
-                )
+                # relevant items among the top-k of everything seen / all relevant items seen
+                retrieved = self.target[i].gather(
+                    dim=-1, index=get_topk(self.topk[i], self.k)[1]
+                ).sum()
+                rp.append((retrieved / self.num_relevant[i]).float().reshape(-1))
         rp = torch.cat(rp).to(self.device)
         if self.avg == "macro":
             return rp.nanmean()
@@ -189,5 +195,7 @@ class RetrievalRecall(Metric[torch.Tensor]):
             self.target[i] = torch.cat(
                 [self.target[i]] + [m.target[i] for m in metrics]
             ).to(self.device)
+        for m in metrics:
+            self.num_relevant = self.num_relevant + m.num_relevant.to(self.device)
 
         return self
